@@ -277,6 +277,8 @@ impl<H: Hasher> MerkleTree<H> {
     /// Returns an error if:
     /// * The specified `proof` consists of fewer than two nodes (a leaf and its sibling) or of more
     ///   nodes than a path in a tree with `usize::MAX` leaves could have.
+    /// * The specified `index` is greater than or equal to the number of leaves in a tree of the
+    ///   depth implied by the length of the `proof`.
     /// * The specified `proof` (which is a Merkle path) does not resolve to the specified `root`.
     pub fn verify(
         root: H::Digest,
@@ -287,10 +289,16 @@ impl<H: Hasher> MerkleTree<H> {
             return Err(MerkleTreeError::InvalidProof);
         }
 
+        // the length of the path determines the number of leaves in the tree
+        let num_leaves = 2usize.pow((proof.len() - 1) as u32);
+        if index >= num_leaves {
+            return Err(MerkleTreeError::LeafIndexOutOfBounds(num_leaves, index));
+        }
+
         let r = index & 1;
         let mut v = H::merge(&[proof[r], proof[1 - r]]);
 
-        let mut index = (index + 2usize.pow((proof.len() - 1) as u32)) >> 1;
+        let mut index = (index + num_leaves) >> 1;
         for &p in proof.iter().skip(2) {
             v = if index & 1 == 0 {
                 H::merge(&[v, p])
